@@ -22,6 +22,7 @@ def run(chk, F):
     chk.guard("walk-coverage", "Resolver", lambda: L.walk_coverage(chk, F))
     chk.guard("walk-coverage", "load_defs ids", lambda: L.defined_names_are_emitted(chk, F))
     chk.guard("walk-coverage", "name readings", lambda: L.readings_agree(chk, F))
+    chk.guard("walk-coverage", "readings per context", lambda: L.context_readings(chk, F))
     chk.guard("errors-reported", "load_defs", lambda: L.errors_reported(chk, F))
     chk.guard("errors-reported", "load_defs inserts", lambda: L.input_inserts_checked(chk, F))
     import c07
